@@ -33,6 +33,7 @@ package magic
 //@   loop 1 decreases i
 
 //@ func magic.vintWidth
+//@   pure
 //@   ensures 1 <= result && result <= 8
 //@   loop 1 invariant 1 <= num && num <= 8 && max == 8 && 0 <= mask && mask <= 128
 //@   loop 1 decreases 8 - num
